@@ -60,6 +60,13 @@ CLAIMED["C12"] = {
   "technique": "seeded model-based history search (deterministic simulation, single actor) against a height/contiguity/mass ledger checked after every expansion step",
 }
 
+CLAIMED["C13"] = {
+  "text": "Seeded search over conversion histories on generated third-core hex reactors (2-4 rings, holes incl. a missing centre, 1-2 fuel blocks): 3-14 steps per run of convert / restore / addEdge / removeEdge / parameter edits in every order the API accepts. After convert: the full-core cell set must equal the third-core cell centres rotated by 0/+120/-120 degrees (independent geometry), names unique, no shared descendants, look-ups resolve, and counts / nuclide masses / volume / volume-integrated totals are three times the third-core values with the centre once. After restore, and after add + remove edge assemblies: a by-identity state digest (assemblies, places, every parameter, number densities, temperatures, grids, symmetry, name/location look-ups) equals the digest taken before. Sampling, not proof.",
+  "design_ref": "DESIGN.md §4 (C13)",
+  "note": "Trusted: the rotation geometry and digest code in worlds/c13.py. 1e-12 relative; monotone counters are not state; parameter edits are made only while no conversion is pending.",
+  "technique": "seeded model-based history search (deterministic simulation, single actor) with an independent rotation-geometry oracle, a x3 ledger and before/after state digests",
+}
+
 NA = {
  "C07": "pure function of (grid, index): no event order, clock, I/O or fault to simulate; exhaustive enumeration over N rings is the right tool, not simulation (DESIGN.md §6)",
  "C08": "pure functions of (grid, cell, k) and of a block's contents; rotations appear only as workload in the simulated runs (DESIGN.md §6)",
